@@ -39,6 +39,8 @@ def unwrap(n):
 def stmts(n):
     if n is None:
         return []
+    if isinstance(n, (list, tuple)):
+        return [y for x in n for y in stmts(x)]
     if tname(n) == "StatListNode":
         out = []
         for s in n.stats:
@@ -104,10 +106,43 @@ class Kernel:
 
     # ------------------------------------------------------------ main loop
     def main_loop(self):
-        loops = [n for n in walk(self.f.node.body) if tname(n) == "WhileStatNode" and self._const_true(n.condition)]
-        if len(loops) != 1:
-            raise Undecided("expected exactly one `while 1` merge loop, found %d" % len(loops))
-        return loops[0]
+        """The merge loop, in one of two recognised forms: `while 1` with an exhaustion test + reload after every advance
+        (self.guarded False), or `while L_ptr < L_len and R_ptr < R_len` that reloads both cursor values at the top of
+        every pass (self.guarded True)."""
+        whiles = [n for n in walk(self.f.node.body) if tname(n) == "WhileStatNode"]
+        loops = [n for n in whiles if self._const_true(n.condition)]
+        self.guarded = False
+        if len(loops) == 1:
+            return loops[0]
+        if not loops:
+            g = [n for n in whiles if self._both_in_range(n.condition)]
+            if len(g) == 1:
+                self.guarded = True
+                return g[0]
+            raise Undecided("expected exactly one `while 1` merge loop (or one loop guarded by `L_ptr < L_len and R_ptr < R_len`), found %d and %d" % (0, len(g)))
+        raise Undecided("expected exactly one `while 1` merge loop, found %d" % len(loops))
+
+    def _in_range(self, c):
+        """side for `X_ptr < X_len` (or `X_len > X_ptr`), else None"""
+        c = unwrap(c)
+        if tname(c) != "PrimaryCmpNode" or getattr(c, "cascade", None) is not None:
+            return None
+        a, b = unwrap(c.operand1), unwrap(c.operand2)
+        if tname(a) != "NameNode" or tname(b) != "NameNode":
+            return None
+        op = c.operator
+        if a.name in self.side_of_len and b.name in self.side_of_ptr:
+            a, b = b, a
+            op = {"<": ">", ">": "<"}.get(op)
+        if op == "<" and a.name in self.side_of_ptr and b.name in self.side_of_len and self.side_of_ptr[a.name] == self.side_of_len[b.name]:
+            return self.side_of_ptr[a.name]
+        return None
+
+    def _both_in_range(self, c):
+        c = unwrap(c) if c is not None else None
+        if c is None or tname(c) != "BoolBinopNode" or c.operator != "and":
+            return False
+        return {self._in_range(c.operand1), self._in_range(c.operand2)} == {"L", "R"}
 
     def _const_true(self, c):
         if c is None:
@@ -140,6 +175,21 @@ class Kernel:
     def branch_table(self):
         loop = self.main_loop()
         body = stmts(loop.body)
+        pre_ev, post_ev, suffix = [], [], []
+        if self.guarded:
+            # pass = [reload both cursor values] + if/elif/else + [statements common to every branch]; the loop test then
+            # plays the part of `if ptr >= len: break` for BOTH cursors and the next pass's reloads follow it, so every
+            # branch is read as: its own events, the common trailer, BREAKIF + RELOAD of both sides
+            ifs = [i for i, x in enumerate(body) if tname(x) == "IfStatNode" and not self.exhausted_test(x)]
+            if len(ifs) != 1:
+                raise Undecided("guarded merge loop does not contain exactly one if/elif/else over the cursor values")
+            pre_ev = self.events(body[:ifs[0]])
+            post_ev = self.events(body[ifs[0] + 1:])
+            if sorted((e[0], e[1]) for e in pre_ev) != [("RELOAD", "L"), ("RELOAD", "R")]:
+                raise Undecided("guarded merge loop does not start by loading both cursor values (and nothing else) at line %d" % loop.pos[1])
+            ln = loop.pos[1]
+            suffix = [("BREAKIF", "L", ln), ("RELOAD", "L", ln), ("BREAKIF", "R", ln), ("RELOAD", "R", ln)]
+            body = [body[ifs[0]]]
         if len(body) != 1 or tname(body[0]) != "IfStatNode":
             raise Undecided("merge loop body is not a single if/elif/else")
         ifn = body[0]
@@ -148,11 +198,11 @@ class Kernel:
         for rel, cl in zip(rels, ifn.if_clauses):
             if rel in table:
                 raise Undecided("two branches test %s" % rel)
-            table[rel] = self.events(cl.body)
+            table[rel] = self.events(cl.body) + post_ev + suffix
         missing = [r for r in ("L>R", "L<R", "EQ") if r not in table]
         if "NE" in table or len(missing) != 1 or ifn.else_clause is None:
             raise Undecided("branches are not two of (L>R, L<R, EQ) plus an else: %s" % rels)
-        table[missing[0]] = self.events(ifn.else_clause)
+        table[missing[0]] = self.events(ifn.else_clause) + post_ev + suffix
         return table, loop
 
     def events(self, body):
@@ -167,10 +217,10 @@ class Kernel:
                         out.append(("UNKNOWN", "store into result at %s" % tname(ix), s.pos[1]))
                         continue
                     if tname(rhs) == "NameNode" and rhs.name in self.side_of_val:
-                        out.append(("EMIT", self.side_of_val[rhs.name], s.pos[1]))
+                        out.append(("EMIT", self.side_of_val[rhs.name], s.pos[1], "cached"))
                     elif tname(rhs) == "MemoryViewIndexNode" and tname(rhs.base) == "NameNode" and rhs.base.name in self.side_of_arr \
                             and tname(unwrap(rhs.indices[0])) == "NameNode" and unwrap(rhs.indices[0]).name == self.ptr[self.side_of_arr[rhs.base.name]]:
-                        out.append(("EMIT", self.side_of_arr[rhs.base.name], s.pos[1]))
+                        out.append(("EMIT", self.side_of_arr[rhs.base.name], s.pos[1], "load"))
                     else:
                         out.append(("UNKNOWN", "emit of an unrecognised value", s.pos[1]))
                 elif tname(lhs) == "NameNode" and lhs.name in self.side_of_val and tname(rhs) == "MemoryViewIndexNode" \
@@ -461,6 +511,9 @@ class _Prelude:
             elif k == "ReturnStatNode":
                 raise _Return(self.val(s.value) if s.value is not None else ("none",))
             elif k == "WhileStatNode":
+                if getattr(self.k, "guarded", False) and (self.sc["emptyL"] or self.sc["emptyR"]):
+                    # the loop test itself handles the empty operand; what the function returns is then up to the tails
+                    raise Undecided("an empty operand reaches the guarded merge loop (no early return): the result is decided by the loop test and the tail copies, which this rule does not evaluate")
                 raise _Loop()
             elif k == "ExprStatNode":
                 pass
